@@ -19,6 +19,9 @@ R10.6  array reads of the module-level writers stay in bounds: the header/implem
 R10.7  allocation bounds: for every array obtained from calloc/malloc in the translator, each subscript and each bulk copy into
        it is provably inside the allocated element count (index is a loop variable bounded by an expression <= the count, or a
        linear expression strictly below the count), and the element size passed to the allocator is the size of the pointee
+R10.8  name-section post-processing keeps heap strings alive: wasmFunctionNamesRemoveDuplicates is partially evaluated on every
+       equality pattern of up to 5 function names (including unnamed slots) with heap objects that remember being freed; no
+       string is read or freed after it was freed, duplicated names are cleared, unique names are kept
 R10.5  name bytes: the hex escape of identifier bytes formats an unsigned byte with at most two digits in both twins
 """
 import math
@@ -932,6 +935,126 @@ def _loop_start(loop, iname, tu):
     return None
 
 
+# ---- R10.8 ----------------------------------------------------------------------------------------
+
+def set_partitions(n):
+    """all assignments of n items to blocks, as restricted growth strings"""
+    def rec(prefix, m):
+        if len(prefix) == n:
+            yield list(prefix)
+            return
+        for b in range(m + 1):
+            for r in rec(prefix + [b], max(m, b + 1)):
+                yield r
+    return rec([], 0)
+
+
+def check_name_dedup(chk, tier):
+    from .. import pe, emit
+    from ..pe import Ptr
+    tu = astdb.dump_ast(astdb.src('w2c2/reader.c'))
+    fn = 'wasmFunctionNamesRemoveDuplicates'
+    chk.require(fn in tu.functions, 'anchor %s not found' % fn)
+    chk.fn(fn)
+    site = fn + ':lifetime'
+    nmax = 5 if tier == 'thorough' else 4
+    n_cases = 0
+    bad = []
+    for n in range(0, nmax + 1):
+        for blocks in set_partitions(n):
+            for nulls in ([()] + [(k,) for k in range(n)]):
+                # names: block b -> string "n<b>"; slots in `nulls` are unnamed functions (NULL)
+                strs = []
+                for k, b in enumerate(blocks):
+                    strs.append(0 if k in nulls else Ptr([ord(ch) for ch in 'n%d' % b] + [0], 0))
+                label = 'names=%r' % (['-' if k in nulls else 'n%d' % b for k, b in enumerate(blocks)],)
+                problems = []
+
+                def alive(interp, p, what, node, problems=problems):
+                    if isinstance(p, Ptr) and id(p.c) in interp.path.state['freed']:
+                        problems.append('%s of a freed name string at %s' % (what, astdb.loc_str(node)))
+                        return False
+                    return True
+
+                def free(interp, args, node, problems=problems):
+                    p = args[0]
+                    if isinstance(p, Ptr) and isinstance(p.c, list):
+                        if id(p.c) in interp.path.state['freed']:
+                            problems.append('double free at %s' % astdb.loc_str(node))
+                        interp.path.state['freed'].add(id(p.c))
+                    return None
+
+                def strcmp(interp, args, node):
+                    for a in args[:2]:
+                        if a == 0:
+                            raise pe.PEError('strcmp(NULL)')
+                        alive(interp, a, 'strcmp', node)
+                    a, b = emit._cstr(interp, args[0]), emit._cstr(interp, args[1])
+                    return (a > b) - (a < b)
+
+                def fprintf(interp, args, node):
+                    for a in args[2:]:
+                        alive(interp, a, 'fprintf("%s")', node)
+                    return 0
+
+                def qsort(interp, args, node):
+                    base, count, size, cmp_ = args
+                    items = base.c[base.k:base.k + count]
+                    import functools
+
+                    def c(x, y):
+                        r = interp.call(cmp_.name, [Ptr({'v': x}, 'v'), Ptr({'v': y}, 'v')], node)
+                        if not isinstance(r, int):
+                            raise pe.PEError('comparator returned %r' % (r,))
+                        return r
+                    items.sort(key=functools.cmp_to_key(c))
+                    base.c[base.k:base.k + count] = items
+                    return None
+                leafs = dict(emit.base_leafs())
+                leafs.update({'free': free, 'strcmp': strcmp, 'fprintf': fprintf, 'qsort': qsort,
+                              'calloc': lambda interp, args, node: Ptr([{'name': 0, 'functionIndex': 0} for _ in range(args[0])] or [0], 0)})
+                it = pe.Interp([tu], leafs)
+                it.strict_bounds = True
+
+                def setup(strs=strs):
+                    names = {'v': {'length': len(strs), 'capacity': len(strs), 'names': Ptr(list(strs), 0) if strs else 0}}
+                    err = {'v': 0}
+                    return (fn, [Ptr(names, 'v'), Ptr(err, 'v')], {'freed': set(), 'names': names['v'], 'stream': emit.Stream([])})
+                n_cases += 1
+                try:
+                    paths = [p for p in it.explore(setup) if not p.aborted]
+                except pe.OutOfBounds as e:
+                    bad.append('%s: %s' % (label, e))
+                    continue
+                except pe.PEError as e:
+                    if 'strcmp(NULL)' in str(e):
+                        bad.append('%s: strcmp on an unnamed (NULL) slot' % label)
+                        continue
+                    raise AnalysisBroken('R10.8 %s: %s' % (label, e))
+                if len(paths) != 1:
+                    raise AnalysisBroken('R10.8 %s: %d paths' % (label, len(paths)))
+                if problems:
+                    bad.append('%s: %s' % (label, '; '.join(sorted(set(problems)))))
+                    continue
+                # result: duplicated names cleared, unique names kept
+                out = paths[0].state['names']['names']
+                got = out.c[out.k:out.k + n] if isinstance(out, Ptr) else []
+                cnt = {}
+                for k, b in enumerate(blocks):
+                    if k not in nulls:
+                        cnt[b] = cnt.get(b, 0) + 1
+                for k, b in enumerate(blocks):
+                    want_kept = k not in nulls and cnt[b] == 1
+                    is_kept = got[k] != 0 and got[k] is not None and isinstance(got[k], Ptr) and got[k].c is strs[k].c if want_kept else got[k] == 0
+                    if not is_kept:
+                        bad.append('%s: slot %d is %s, expected %s' % (label, k, 'kept' if got[k] != 0 else 'cleared', 'kept' if want_kept else 'cleared'))
+                        break
+    chk.expect(not bad, 'R10.8', 'name-dedup-lifetime',
+               '%s mishandles %d of %d name patterns, e.g. %s' % (fn, len(bad), n_cases, ' | '.join(bad[:3])), site,
+               detail_ok='%d equality patterns of up to %d names: no read/free after free, duplicates cleared, unique names kept' % (n_cases, nmax))
+    return n_cases
+
+
 # ---- R10.6 ----------------------------------------------------------------------------------------
 
 def check_writer_bounds(chk):
@@ -981,6 +1104,7 @@ def run(chk):
     n_null = nf.check()
     n_wr = check_writer_bounds(chk)
     n_al = check_allocation_bounds(chk, funcs)
+    n_nm = check_name_dedup(chk, chk.tier)
     chk.extra['sites'] = dict(sprintf=n_fmt, copies=n_cp, raw_buffer=n_buf, nullable_sinks=n_null,
                               tainted_locations=sorted(map(str, nf.tainted)), seed_evidence={str(k): v[:3] for k, v in just.items()})
     chk.floor('R10.1', 10)
